@@ -51,6 +51,7 @@ static struct { void *p; int kind; } cells[8192];
 static int ncells = 0;
 
 static long base[7];
+static int dangling (svalue_t * sv);
 static char *fn_names[6];		/* shared strings "cb", "cbs0".."cbs3", "act" of the uobj program */
 static long fn_base = 0;
 static long fn_refs (void)
@@ -199,20 +200,36 @@ static void print_state (const char *status)
     }
   snapshot (now);
   *o = 0;
+  /* value-level observation: the text every slot sees */
+  static char tx[4096];
+  {
+    char *q = tx;
+    for (int i = 0; i < NSLOT; i++)
+      {
+        svalue_t *sv = slot (i);
+        if (i)
+          *q++ = ',';
+        if (sv->type == T_STRING && (sv->subtype & STRING_COUNTED) && !dangling (sv) && strlen (sv->u.string) < 300)
+          q += sprintf (q, "%s", sv->u.string);
+        else
+          *q++ = '-';
+      }
+    *q = 0;
+  }
   char pf[32];
   if (!uobj_prog || poisoned (uobj_prog))
     snprintf (pf, sizeof pf, "x");
   else
     snprintf (pf, sizeof pf, "%u", (unsigned) uobj_prog->ref);
   if (pf[0] == 'x')
-    vh_out ("%s st:%ld,%ld,%ld,%ld,-,-,%ld p:%s f:-", buf, now[0] - base[0], now[1] - base[1], now[2] - base[2],
-            now[3] - base[3], now[6] - base[6], pf);
+    vh_out ("%s st:%ld,%ld,%ld,%ld,-,-,%ld p:%s f:- t:%s", buf, now[0] - base[0], now[1] - base[1], now[2] - base[2],
+            now[3] - base[3], now[6] - base[6], pf, tx);
   else if (lpc_mode || applied)
-    vh_out ("%s st:%ld,%ld,%ld,%ld,%ld,-,%ld p:%s f:%ld", buf, now[0] - base[0], now[1] - base[1], now[2] - base[2],
-            now[3] - base[3], now[4] - base[4], now[6] - base[6], pf, fn_refs () - fn_base);
+    vh_out ("%s st:%ld,%ld,%ld,%ld,%ld,-,%ld p:%s f:%ld t:%s", buf, now[0] - base[0], now[1] - base[1], now[2] - base[2],
+            now[3] - base[3], now[4] - base[4], now[6] - base[6], pf, fn_refs () - fn_base, tx);
   else
-    vh_out ("%s st:%ld,%ld,%ld,%ld,%ld,%ld,%ld p:%s f:%ld", buf, now[0] - base[0], now[1] - base[1], now[2] - base[2],
-            now[3] - base[3], now[4] - base[4], now[5] - base[5], now[6] - base[6], pf, fn_refs () - fn_base);
+    vh_out ("%s st:%ld,%ld,%ld,%ld,%ld,%ld,%ld p:%s f:%ld t:%s", buf, now[0] - base[0], now[1] - base[1], now[2] - base[2],
+            now[3] - base[3], now[4] - base[4], now[5] - base[5], now[6] - base[6], pf, fn_refs () - fn_base, tx);
 }
 
 /* value of a slot points to freed memory? (the model's explicit use-after-free outcome) */
@@ -443,6 +460,32 @@ static int unit_op (int n, char **t, int *a)
     }
   else if (!strcmp (t[0], "rmcall"))
     remove_call_out_by_handle (call_handle[a[1]]);
+  else if (!strcmp (t[0], "sappend"))
+    {
+      /* v[d] += <number>: f_add_eq with a number on the right */
+      EXTEND_SVALUE_STRING (slot (a[1]), t[2], "c06");
+    }
+  else if (!strcmp (t[0], "sjoin"))
+    {
+      /* v[d] += v[t]: f_add_eq with a string on the right (a pushed copy, consumed by the macro) */
+      push_svalue (slot (a[2]));
+      SVALUE_STRING_JOIN (slot (a[1]), sp, "c06");
+      sp--;
+    }
+  else if (!strcmp (t[0], "sadd"))
+    {
+      /* v[d] = v[s] + <number>: f_add on a pushed copy, result assigned */
+      push_svalue (slot (a[2]));
+      EXTEND_SVALUE_STRING (sp, t[3], "c06");
+      free_svalue (slot (a[1]), "c06");
+      *slot (a[1]) = *sp--;
+    }
+  else if (!strcmp (t[0], "schar"))
+    {
+      /* v[d][i] = c: push_indexed_lvalue unlinks the string, then the byte is stored */
+      unlink_string_svalue (slot (a[1]));
+      slot (a[1])->u.string[a[2]] = t[3][0];
+    }
   else if (!strcmp (t[0], "inp"))
     {
       svalue_t fun, args[2];
@@ -498,7 +541,7 @@ static int applicable (int n, char **t, int *a)
   if (!strcmp (op, "newstr"))
     return n == 3 && SL (a[1]) && !lpc_mode;
   if (!strcmp (op, "newmstr"))
-    return n == 3 && SL (a[1]) && !lpc_mode;
+    return n == 3 && SL (a[1]);
   if (!strcmp (op, "newfun"))
     return n == 4 && SL (a[1]) && SL (a[3]) && objok (a[2]);
   if (!strcmp (op, "fill"))
@@ -554,6 +597,28 @@ static int applicable (int n, char **t, int *a)
   if (!strcmp (op, "rmsent"))
     return n == 2 && a[1] >= 0 && a[1] < NSENT && sent_used[a[1]] && objok (sent_owner[a[1]])
       && hobj (sent_owner[a[1]]) == sent_ownerp[a[1]];
+  if (!strcmp (op, "sappend") || !strcmp (op, "sjoin") || !strcmp (op, "sadd") || !strcmp (op, "schar")
+      || !strcmp (op, "srange"))
+    {
+      int src = !strcmp (op, "sadd") ? a[2] : a[1];
+      svalue_t *sv;
+      if (!SL (a[1]) || !SL (src))
+        return 0;
+      sv = slot (src);
+      if (sv->type != T_STRING || !(sv->subtype & STRING_COUNTED))
+        return 0;
+      if (dangling (sv))
+        return 1;
+      if (!strcmp (op, "sappend"))
+        return n == 3;
+      if (!strcmp (op, "sadd"))
+        return n == 4;
+      if (!strcmp (op, "sjoin"))
+        return n == 3 && SL (a[2]) && slot (a[2])->type == T_STRING && (slot (a[2])->subtype & STRING_COUNTED);
+      if (!strcmp (op, "schar"))
+        return n == 4 && a[2] >= 0 && (size_t) a[2] < SVALUE_STRLEN (sv) && strlen (t[3]) == 1;
+      return n == 5 && lpc_mode && a[2] >= 0 && a[2] <= a[3] && (size_t) a[3] < SVALUE_STRLEN (sv) && strlen (t[4]) > 0;
+    }
   if (!strcmp (op, "inp"))
     return n == 4 && objok (a[1]) && SL (a[2]) && SL (a[3]) && !input_pending && user_ob;
   if (!strcmp (op, "input"))
@@ -686,7 +751,8 @@ static int c06_cmd (char *line)
       {"fill", {1, 3, 0}}, {"assign", {1, 2, 0}}, {"aset", {1, 3, 0}}, {"aget", {1, 2, 0}},
       {"mset", {1, 2, 3}}, {"mdel", {1, 2, 0}}, {"push", {1, 0, 0}}, {"popto", {1, 0, 0}},
       {"setvar", {3, 0, 0}}, {"getvar", {1, 0, 0}}, {"oref", {1, 0, 0}}, {"call", {4, 5, 0}},
-      {"sent", {3, 4, 0}}, {"inp", {2, 3, 0}}, {"err", {1, 2, 0}}, {"efun", {2, 3, 0}}, {0, {0, 0, 0}}
+      {"sent", {3, 4, 0}}, {"inp", {2, 3, 0}}, {"sappend", {1, 0, 0}}, {"sjoin", {1, 2, 0}}, {"sadd", {1, 2, 0}},
+      {"schar", {1, 0, 0}}, {"srange", {1, 0, 0}}, {"err", {1, 2, 0}}, {"efun", {2, 3, 0}}, {0, {0, 0, 0}}
     };
     for (int u = 0; uses[u].op; u++)
       if (!strcmp (uses[u].op, t[0]))
@@ -819,7 +885,9 @@ static int c06_cmd (char *line)
     }
   /* bookkeeping shared by both modes */
   if (!strcmp (t[0], "newarr") || !strcmp (t[0], "newmap") || !strcmp (t[0], "newcls") || !strcmp (t[0], "newbuf")
-      || !strcmp (t[0], "newstr") || !strcmp (t[0], "newmstr") || !strcmp (t[0], "newfun") || !strcmp (t[0], "fill"))
+      || !strcmp (t[0], "newstr") || !strcmp (t[0], "newmstr") || !strcmp (t[0], "newfun") || !strcmp (t[0], "fill")
+      || !strcmp (t[0], "sappend") || !strcmp (t[0], "sjoin") || !strcmp (t[0], "sadd") || !strcmp (t[0], "schar")
+      || !strcmp (t[0], "srange"))
     track_slot (a[1]);
   else if (!strcmp (t[0], "newobj"))
     {
